@@ -36,7 +36,7 @@ def gen(rng, tier, index):
         # loop, loading executor thread and whatever else start-up sets going are scheduled at random (not "first come first served")
         sched = {"policy": "rw", "seed": rng.getrandbits(32), "p": rng.choice([0.0, 0.0, 0.02])}
     return {
-        "cfg": {"version": version, "fmt": rng.choice(["pickle", "json"]), "flavour": flavour, "sched": sched,
+        "cfg": {"version": version, "fmt": rng.choice(["pickle", "json"]), "flavour": flavour, "sched": sched, "debug_log": rng.random() < 0.2,
                 "main": rng.choice(MAIN), "bak": rng.choice(BAK), "k": rng.random(), "kb": rng.random(),
                 "relpath": rng.choice([None, None, "mysensors", "some_folder/mysensors", "./data/../ms"])},
         "state": diskutil.state_lines(rng, version, rng.randint(1, 25)),
@@ -61,6 +61,30 @@ def _damage(data, how, frac):
 
 
 def run(case):
+    """(with cfg["debug_log"] the application has switched the library's loggers to DEBUG: what is only computed for a debug
+    message is computed in this run)"""
+    import logging  # pylint: disable=import-outside-toplevel
+    if not case["cfg"].get("debug_log"):
+        return _run(case)
+    logger = logging.getLogger("mysensors")
+    before = (logger.level, logger.propagate, logging.root.manager.disable)
+    sink = logging.NullHandler()
+    logger.addHandler(sink)
+    logger.propagate = False
+    logger.setLevel(logging.DEBUG)
+    logging.disable(logging.NOTSET)  # (the harness keeps logging switched off otherwise)
+    try:
+        res = _run(case)
+    finally:
+        logging.disable(before[2])
+        logger.setLevel(before[0])
+        logger.propagate = before[1]
+        logger.removeHandler(sink)
+    res.setdefault("probes", {})["runs_with_debug_logging"] = 1
+    return res
+
+
+def _run(case):
     cfg = case["cfg"]
     flavour = cfg["flavour"]
     dw = diskutil.DiskWorld(cfg["version"], cfg["fmt"], flavour=flavour, relpath=cfg.get("relpath"), sched=cfg.get("sched"),
